@@ -3,7 +3,7 @@ import struct
 
 from .. import report
 from ..facts import AnchorMissing
-from ..guards import analysis, as_cmp, truth_of
+from ..guards import analysis, as_cmp, truth_of, canon_cmp
 from ..sym import Sym, atom_str
 from ..terms import strip, short, cname, unmut, walk, same
 from .c16 import fconst, is_uom
@@ -68,7 +68,7 @@ def run(prog, tier, res):
         ok = False
         for (d, rel, vals) in an.atoms_at(bb):
             tr = truth_of(rel, vals)
-            c = as_cmp(d, True)
+            c = canon_cmp(as_cmp(d, True))
             if tr is False and c and c[0] == "Lt":
                 lhs, rhs = strip(c[1]), strip(c[2])
                 if lhs[0] == "call" and is_uom(lhs[1], "abs") and is_h(lhs[2][0]):
